@@ -108,7 +108,7 @@ def cmd_check(a):
         a.prop, tier, seed, len(res), nP, sum(1 for r in res if r.get("verdict") == "proved"),
         sum(r.get("paths", 0) for r in res), sum(r.get("vcs", 0) for r in res), summary["wall_s"], code))
     if a.verbose:
-        for r in sorted(res, key=lambda r: -r.get("wall_s", 0))[:15]:
+        for r in sorted(res, key=lambda r: -r.get("wall_s", 0))[:int(os.environ.get("VERIF_TOPN", "15"))]:
             print("   %-70s %-10s paths=%-6d %.1fs" % (r["id"][:70], r.get("verdict"), r.get("paths", 0), r.get("wall_s", 0)))
     return code
 
